@@ -199,7 +199,8 @@ def gen_direct(rng):
         feats.add('custom_field_' + which)
     elif kind == 'rename_app':
         out.append(M.RenameAppLabel('app1', 'app9', legacy_app_label='app1',
-                                    model_names=['A']))
+                                    model_names=rng.choice([['A'], ['A'],
+                                                            []])))
         feats.add('rename_app')
     elif kind == 'move':
         out.append(M.MoveToDjangoMigrations(mark_applied=rng.choice(
